@@ -748,13 +748,15 @@ def abmd_part(run, r, runner, n):
 
 
 def hist_part(run, r, runner, n):
-    """histogramRestraint on 1-4 scalar values: energy = 1/2 (k M) sum_g (h(xi_g) - h0_g)^2, force = minus its derivative"""
+    """histogramRestraint on 1-4 scalar values and/or one vector variable (distancePairs, 2 components): energy =
+    1/2 (k M) sum_g (h(xi_g) - h0_g)^2 with M the total number of values, force = minus its derivative"""
     cases = []
     for k in range(n):
-        M = r.choice([1, 2, 2, 3, 4])
+        M = r.choice([0, 1, 2, 2, 3, 4])
+        dp = M == 0 or r.random() < 0.35          # a distancePairs variable: group1 {a b} group2 {c} -> 2 distances
         width = r.choice([0.25, 0.5, 1.0, 1.0, 2.0])
         nb = r.randint(2, 8)
-        lower = V.dyadic(r, -3, 1, bits=2)
+        lower = V.dyadic(r, -3, 1, bits=2) if not dp else V.dyadic(r, 0, 1, bits=2)
         sigma = r.choice([None, 0.25, 0.5, 1.0, 2.0])
         ref = [r.choice([0.0, 0.125, 0.25, 0.5, 1.0, 2.0]) for _ in range(nb)]
         if sum(ref) == 0:
@@ -765,13 +767,14 @@ def hist_part(run, r, runner, n):
         kk = r.choice([0.5, 1.0, 2.0, 8.0])
         steps = []
         for s_ in range(r.randint(2, 5)):
-            steps.append([lower + V.dyadic(r, -1, nb * width + 1, bits=3) for _ in range(M)])
-        cases.append({"M": M, "width": width, "nb": nb, "lower": lower, "sigma": sigma, "ref": ref, "k": kk, "steps": steps})
-    scn, ml, refs = [], [], []
+            zs = [lower + V.dyadic(r, -1, nb * width + 1, bits=3) for _ in range(M)]
+            pp = [[V.dyadic(r, -2, 2, bits=3) for _ in range(3)] for _ in range(3)] if dp else []
+            steps.append((zs, pp))
+        cases.append({"M": M, "dp": dp, "width": width, "nb": nb, "lower": lower, "sigma": sigma, "ref": ref, "k": kk, "steps": steps})
+    scn, refs = [], []
     for k, c in enumerate(cases):
         M = c["M"]
         sig = c["sigma"] if c["sigma"] is not None else 2.0 * c["width"]
-        # reference histogram as the code normalises it (same operation order)
         tot = 0.0
         for x in c["ref"]:
             tot += x
@@ -780,25 +783,35 @@ def hist_part(run, r, runner, n):
         if abs(integral - 1.0) > 1.0e-03:
             ref = [x / integral for x in ref]
         refs.append((ref, sig))
-        scn += ["echo CASE %d" % k, "natoms %d" % M, "new", "config EOF"]
+        scn += ["echo CASE %d" % k, "natoms %d" % (M + (3 if c["dp"] else 0)), "new", "config EOF"]
+        names = []
         for i in range(M):
             scn += colvar_block(i, {"w": 1.0, "per": False})
-        scn += ["histogramRestraint {", "  name r", "  colvars " + " ".join("v%d" % i for i in range(M)),
+            names.append("v%d" % i)
+        if c["dp"]:
+            scn += ["colvar {", "  name vp", "  distancePairs {", "    group1 { atomNumbers %d %d }" % (M + 1, M + 2),
+                    "    group2 { atomNumbers %d }" % (M + 3), "  }", "}"]
+            names.append("vp")
+        scn += ["histogramRestraint {", "  name r", "  colvars " + " ".join(names),
                 "  lowerBoundary %r" % c["lower"], "  upperBoundary %r" % (c["lower"] + c["nb"] * c["width"]), "  width %r" % c["width"]]
         if c["sigma"] is not None:
             scn.append("  gaussianSigma %r" % c["sigma"])
         scn += ["  refHistogram " + vec(c["ref"]), "  forceConstant %r" % c["k"], "}", "EOF", "show atomf 0 cv 0 energy 0 bias 0"]
-        for xs in c["steps"]:
-            for i, x in enumerate(xs):
+        for zs, pp in c["steps"]:
+            for i, x in enumerate(zs):
                 scn.append("pos %d 0 0 %s" % (i + 1, hx(x)))
+            for i, q in enumerate(pp):
+                scn.append("pos %d %s %s %s" % (M + 1 + i, hx(q[0]), hx(q[1]), hx(q[2])))
             scn += ["step", "rdump"]
-            ml.append("HIST %s %s %s %s %d %s %d %s" % (hx(c["k"]), hx(sig), hx(c["lower"]), hx(c["width"]), len(ref),
-                                                      " ".join(hx(x) for x in ref), M, " ".join(hx(x) for x in xs)))
         scn.append("echo END %d" % k)
-    rc, mout, e = V.run_lines(runner.model, ml)
     rc2, iout, e2 = V.run_lines(runner.unit, scn, cwd=runner.scratch)
     impl = parse_impl(iout)
-    mi = 0
+
+    def flat(x):
+        out = []
+        for q in x:
+            out += q if isinstance(q, list) else [q]
+        return out
 
     def energy(c, ref, sig, xs, scale):
         M = len(xs)
@@ -810,44 +823,53 @@ def hist_part(run, r, runner, n):
             tot += (h - ref[g]) ** 2
         return 0.5 * c["k"] * scale * tot
 
+    ml, where = [], []
     for k, c in enumerate(cases):
         cs = impl.get(k)
-        run.dist("histogramRestraint")
+        run.dist("histogramRestraint:%s" % ("vector" if c["dp"] else "scalar"))
         ref, sig = refs[k]
         if cs is None or not cs["complete"] or len(cs["steps"]) != len(c["steps"]) or any("err=ok" not in l for l in cs["config"]):
             run.mismatch("histogram", c, ((cs or {}).get("config", []) + (cs or {}).get("raw", []))[-3:], "complete run")
-            mi += len(c["steps"])
             continue
         nz = False
-        for xs, o in zip(c["steps"], cs["steps"]):
-            M = c["M"]
-            # oracle 1: closed form with the scaling the code uses (k M), forces by central differences of it
+        for (zs, pp), o in zip(c["steps"], cs["steps"]):
+            xs = flat(o["X"])
+            Fi = flat(o["F"])
+            M = len(xs)
+            if M != c["M"] + (2 if c["dp"] else 0) or any(abs(a - b) > 1e-12 for a, b in zip(xs, zs)):
+                run.mismatch("histogram", c, xs, "the %d imposed values" % (c["M"] + (2 if c["dp"] else 0)))
+                continue
+            rp = {"kind": "hist", "case": c, "values": xs}
             E = energy(c, ref, sig, xs, M)
             if not close(E, o["E"], 1e-9):
-                run.violation("potential:histogram:energy", "values %r: energy %r, 1/2 k M sum_g (h(xi_g) - h0_g)^2 = %r" % (xs, o["E"], E), {"kind": "hist", "case": c, "values": xs})
+                run.violation("potential:histogram:energy", "values %r: energy %r, 1/2 k M sum_g (h(xi_g) - h0_g)^2 = %r" % (xs, o["E"], E), rp)
             hh = 1.0 / 16384       # central difference: truncation ~ hh^2 E/sigma^3 < 1e-6, rounding ~ 1e-16 E/hh
             for i in range(M):
                 xp = list(xs); xp[i] += hh
                 xm = list(xs); xm[i] -= hh
                 fd = -(energy(c, ref, sig, xp, M) - energy(c, ref, sig, xm, M)) / (2 * hh)
-                if abs(fd - o["F"][i]) > 1e-5 * max(1.0, abs(fd), abs(o["F"][i])):
-                    run.violation("potential:histogram:force", "values %r: force on value %d is %r, minus the derivative of the energy is %r" % (xs, i, o["F"][i], fd), {"kind": "hist", "case": c, "values": xs})
-            # oracle 2: the DOCUMENTED potential 1/2 k INTEGRAL (h - h0)^2 dxi = 1/2 k width sum_g (...)^2 (mid-point rule on the grid)
+                if abs(fd - Fi[i]) > 1e-5 * max(1.0, abs(fd), abs(Fi[i])):
+                    run.violation("potential:histogram:force", "values %r: force on value %d is %r, minus the derivative of the energy is %r" % (xs, i, Fi[i], fd), rp)
             Edoc = energy(c, ref, sig, xs, c["width"])
             if abs(E) > 1e-12 and not close(Edoc, o["E"], 1e-9):
-                run.violation("potential:histogram:energy-scale", "M %d values %r, width %r: energy %r, documented 1/2 k integral (h-h0)^2 = %r (ratio %r = M/width)" % (M, xs, c["width"], o["E"], Edoc, o["E"] / Edoc if Edoc else float("nan")), {"kind": "hist", "case": c, "values": xs})
+                run.violation("potential:histogram:energy-scale", "M %d values %r, width %r: energy %r, documented 1/2 k integral (h-h0)^2 = %r (ratio %r = M/width)" % (M, xs, c["width"], o["E"], Edoc, o["E"] / Edoc if Edoc else float("nan")), rp)
             nz = nz or abs(o["E"]) > 1e-9
-            # tie
-            parts = mout[mi].split(" ; ") if mi < len(mout) else []
-            mi += 1
-            if len(parts) < 2:
-                run.mismatch("histogram", {"case": c, "values": xs}, o["E"], "no model output")
-                continue
-            me = float.fromhex(parts[0])
-            mf = flist(parts[1])
-            if not close(me, o["E"]) or len(mf) != len(o["F"]) or not all(close(a, b) for a, b in zip(mf, o["F"])):
-                run.mismatch("histogram", {"case": c, "values": xs}, [o["E"], o["F"]], [me, mf])
-        run.count("hist%d" % k, nz and c["M"] >= 2)
+            ml.append("HIST %s %s %s %s %d %s %d %s" % (hx(c["k"]), hx(sig), hx(c["lower"]), hx(c["width"]), len(ref),
+                                                      " ".join(hx(x) for x in ref), M, " ".join(hx(x) for x in xs)))
+            where.append((c, xs, o, Fi))
+        run.count("hist%d" % k, nz and (c["M"] >= 2 or c["dp"]))
+    rc, mout, e = V.run_lines(runner.model, ml)
+    if len(mout) != len(where):
+        run.mismatch("histogram", "model run", len(where), len(mout))
+    for (c, xs, o, Fi), line in zip(where, mout):
+        parts = line.split(" ; ")
+        if len(parts) < 2:
+            run.mismatch("histogram", {"case": c, "values": xs}, o["E"], "no model output")
+            continue
+        me = float.fromhex(parts[0])
+        mf = flist(parts[1])
+        if not close(me, o["E"]) or len(mf) != len(Fi) or not all(close(a, b) for a, b in zip(mf, Fi)):
+            run.mismatch("histogram", {"case": c, "values": xs}, [o["E"], Fi], [me, mf])
 
 
 # ---- manifold-valued variables --------------------------------------------------------------------------------------
